@@ -337,3 +337,14 @@ rule('C15.17')(c13.exact_before_fuzzy)          # an exact iterate=False registr
 rule('C01.19')(c15.text_is_not_iterable)        # inherited __iter__ makes a container subclass reach its base's accessors
 rule('C04.26')(c10.defaults)                    # a default replaces a failed *condition*, not a failing sub-spec
 rule('C12.21')(c13.tree_structure)              # re-parenting keeps the siblings' order
+
+# round-10 seeds (ten properties): clauses first reported under a sibling property
+rule('C03.26')(c13.tree_structure)              # a list spec iterates with the closest registered base's handler
+rule('C03.27')(c13.exact_before_fuzzy)          # an exact "not iterable" registration is final for a list spec
+rule('C05.25')(c09.raise_classes)               # the error re-raised for an item is the last alternative's
+rule('C08.23')(c02.call_parts)                  # one argument valuator per part keeps sharing between arguments
+rule('C08.24')(c02.argument_context)            # Path segments are argument positions too
+rule('C09.26')(c03.spec_predicate)              # a class with a glomit method is a type pattern, not a spec
+rule('C10.20')(c08.mode_reset_on_recycle)       # Switch's value spec runs in the Switch's mode, not the key's
+rule('C13.22')(_once(('mutation',), ('Assign', 'Delete')))   # Assign's final step keeps the kind its path gave it
+rule('C05.26')(c10.defaults_are_evaluated_in_the_combinators_own_frame)   # a default's failure is rendered under the combinator, not under its last failed key
